@@ -200,12 +200,43 @@ def _handlers(mod):
                     node.name in ('create', 'update') and \
                     node.name not in out and \
                     'rsrc_id.rsplit' in ast.unparse(node) and \
-                    '_admin_cell_alloc' in ast.unparse(node) and \
+                    any(a in ast.unparse(node)
+                        for a in _cell_alloc_accessors(mod)) and \
                     'Reservation' in ast.unparse(node).split('\n')[1]:
                 info = FuncInfo(mod, None, node)
                 info.qualname = 'reservation.%s' % node.name
                 out[node.name] = info
     return out
+
+
+def _cell_alloc_accessors(mod):
+    """Spellings of 'the admin object of cell allocations': the admin
+    method itself and every module function that returns it (by role, not
+    by name - the accessor may be renamed)."""
+    out = {'cell_allocation'}
+    for func in mod.functions.values():
+        rets = [r for r in ast.walk(func.raw) if isinstance(r, ast.Return)
+                and r.value is not None]
+        if len(rets) == 1 and N.txt(rets[0].value).endswith(
+                '.cell_allocation()'):
+            out.add(func.name)
+    return out
+
+
+def _is_cell_alloc_admin(func, recv, accessors):
+    """The receiver is the admin object of cell allocations: an accessor
+    call, or a local bound (only) to one."""
+    if recv is None:
+        return False
+    if any(a in N.txt(recv) for a in accessors):
+        return True
+    if isinstance(recv, ast.Name):
+        binds = [sub.value for sub in ast.walk(func.node)
+                 if isinstance(sub, ast.Assign) and any(
+                     N.txt(t) == recv.id for t in sub.targets)]
+        return bool(binds) and all(
+            any(a in N.txt(v) for a in accessors) for v in binds)
+    return False
 
 
 def _check_before_write(ctx, mod):
@@ -220,10 +251,11 @@ def _check_before_write(ctx, mod):
         checks = [n for n, c in K.nodes_calling(
             graph, lambda c: isinstance(c.func, ast.Name) and
             c.func.id == '_check_capacity')]
+        accessors = _cell_alloc_accessors(mod)
         writes = [n for n, c in K.nodes_calling(
             graph, lambda c: K.is_meth(c, 'create', 'update') and
-            'admin_cell_alloc' in (K.recv_text(c) or '').replace(
-                '()', '') and len(c.args) == 2)]
+            _is_cell_alloc_admin(func, K.recv(c), accessors) and
+            len(c.args) == 2)]
         ctx.require(writes, 'admin write in reservation %s' % name,
             rule='C19.3')
         for node in writes:
@@ -308,7 +340,8 @@ def _check_before_write(ctx, mod):
     # conditionally, not one with a key left out
     lists = [c for c in K.calls(cap.node)
              if K.is_meth(c, 'list') and c.args and
-             'admin_cell_alloc' in N.txt(c.func)]
+             _is_cell_alloc_admin(cap, K.recv(c),
+                                  _cell_alloc_accessors(mod))]
     pcell = cap.params()[0]
     prq = cap.params()[2]
     okq = len(lists) == 1
@@ -690,6 +723,34 @@ def _trait_limits(ctx, mod, cap):
         if isinstance(sub, ast.Assign) and N.txt(sub.targets[0]) == \
                 lname and isinstance(sub.value, ast.ListComp):
             comp = sub.value
+    if comp is None:
+        # the same selection spelled as a loop that appends (with a nested
+        # if or an early continue): read from how the list is built
+        parts = K.list_contributions(cap, lname)
+        if len(parts) == 1 and 'other' not in parts[0] and \
+                len(parts[0]['domains']) == 1 and all(
+                    t is not None for t, _o in parts[0]['conds']):
+            part = parts[0]
+            tgt, dom = part['domains'][0]
+            ifs = [t if o else ast.UnaryOp(op=ast.Not(), operand=t)
+                   for t, o in part['conds']]
+            ifs = [i.operand.operand if isinstance(i, ast.UnaryOp) and
+                   isinstance(i.op, ast.Not) and
+                   isinstance(i.operand, ast.UnaryOp) and
+                   isinstance(i.operand.op, ast.Not) else i for i in ifs]
+            ifs = [ast.Compare(left=i.operand.left, ops=[ast.In()],
+                               comparators=i.operand.comparators)
+                   if isinstance(i, ast.UnaryOp) and
+                   isinstance(i.op, ast.Not) and
+                   isinstance(i.operand, ast.Compare) and
+                   len(i.operand.ops) == 1 and
+                   isinstance(i.operand.ops[0], ast.NotIn) else i
+                   for i in ifs]
+            comp = ast.ListComp(
+                elt=part['elt'] if part['elt'] is not None else tgt,
+                generators=[ast.comprehension(target=tgt, iter=dom,
+                                              ifs=ifs, is_async=0)])
+            ast.fix_missing_locations(comp)
     ctx.require(comp is not None, 'selection of applicable limits',
         rule='C19.5')
     gen = comp.generators[0]
@@ -721,7 +782,7 @@ def _trait_limits(ctx, mod, cap):
         return isinstance(free, ast.Subscript) and \
             isinstance(free.value, ast.Call) and \
             N.txt(free.value.func) == '_calc_free_traits' and \
-            N.txt(free.slice) == "%s['trait']" % lvar
+            K.rtxt(cap, free.slice) == "%s['trait']" % lvar
     ok = len(loops) == 1 and any(
         per_trait(s, N.txt(loops[0].target))
         for s in ast.walk(loops[0])) and not any(
@@ -767,6 +828,32 @@ def _trait_limits(ctx, mod, cap):
             ok = len(mine) == 1 and mine[0].key[0] == 'in' and \
                 mine[0].key[3] and mine[0].key[1] == var and \
                 mine[0].key[2] == table
+            if isinstance(root, ast.Name) and not mine:
+                # row = <table>.get(<trait>) ; if row is None: continue -
+                # the rows are dictionaries, so 'no row' is 'not in table'
+                binds = [sub.value for sub in K.walk_no_nested(func.node)
+                         if isinstance(sub, ast.Assign) and any(
+                             N.txt(t) == root.id for t in sub.targets)]
+                held = binds[0] if len(binds) == 1 else None
+                if isinstance(held, ast.Call) and K.is_meth(held, 'get') \
+                        and len(held.args) == 1 and not held.keywords and \
+                        N.txt(held.args[0]) == var and \
+                        isinstance(K.recv(held), ast.Name):
+                    table = K.recv(held).id
+                    ttxt = N.txt(node.ast.target).replace(
+                        root.id, '%s[%s]' % (table, var), 1)
+                    # (the stores into the row end the dataflow facts
+                    # about the local: decided by cut instead - the row is
+                    # bound once, so the test still speaks about it)
+                    want = ('is', root.id, 'None', False)
+                    ok = K.guarded_by(
+                        graph, node, lambda e: K.edge_has_atom(
+                            nz, e, lambda a: a.key == want), start=loop)
+                    others = [f for f in N.raw_only(facts[node])
+                              if f.key != want and (
+                                  root.id in f.mentions or
+                                  var in f.mentions)]
+                    ok = ok and not others
             ctx.ob('C19.5', func, node, ok and
                    ttxt.startswith('%s[%s]' % (table, var)),
                    'subtracted from that trait, under `trait in free` only')
